@@ -21,6 +21,9 @@ fn thresholds(total: u64) -> Vec<(&'static str, Th)> {
         ("q66.7-40", Th::Quorum { t: pct(667_000_000), q: pct(400_000_000) }),
         ("q100-100", Th::Quorum { t: pct(1_000_000_000), q: pct(1_000_000_000) }),
         ("q50-tiny", Th::Quorum { t: pct(500_000_000), q: pct(1) }),
+        // 7 to 9 decimal places: w*p lands just above an integer for small weights
+        ("pct66.66667", Th::Pct(pct(666_666_700))),
+        ("q50.0000001-33.33334", Th::Quorum { t: pct(500_000_001), q: pct(333_333_400) }),
     ];
     v.retain(|(_, t)| match t {
         Th::Count(w) => *w >= 1 && *w <= total,
@@ -81,7 +84,7 @@ pub fn configs(prop: &str, thorough: bool) -> Vec<(Cfg, Option<usize>)> {
                 ("A2,B2/q50-33.3", vec![(0, 2), (1, 2)], Th::Quorum { t: pct(500_000_000), q: pct(333_333_333) }),
                 ("A1,B1,C1/count2", vec![(0, 1), (1, 1), (2, 1)], Th::Count(2)),
             ] {
-                if !thorough && !n.starts_with("A1,B2") {
+                if !thorough && n.starts_with("A2,B2") {
                     continue;
                 }
                 let mut c = Cfg::base(&format!("C03/flex/group-changes-after-opening/{n}"), true);
@@ -104,6 +107,33 @@ pub fn configs(prop: &str, thorough: bool) -> Vec<(Cfg, Option<usize>)> {
                 c.editors = vec![4];
                 c.max_edits = 2;
                 c.edits_after_proposal = true;
+                c.exec_iff = true;
+                out.push((c, None));
+            }
+            // flex: weights are RAISED or members added in the proposal's own block, before it is opened
+            // (only increases: the reported total then still covers every ballot, so the status must follow)
+            for (n, wv, th) in [
+                ("A1,B2,C1/pct51", vec![(0u8, 1u64), (1, 2), (2, 1)], Th::Pct(pct(510_000_000))),
+                ("A1,B4,C5/q51-50", vec![(0, 1), (1, 4), (2, 5)], Th::Quorum { t: pct(510_000_000), q: pct(500_000_000) }),
+            ] {
+                if !thorough && n.starts_with("A1,B4") {
+                    continue;
+                }
+                let mut c = Cfg::base(&format!("C03/flex/group-raised-in-the-opening-block/{n}"), true);
+                c.props = p.clone();
+                c.actors = vec!["A", "B", "C", "X", "ADM"];
+                c.group_admin = 4;
+                c.voters = wv.clone();
+                c.th = th;
+                c.proposers = vec![0, 3];
+                c.votes = vec![VoteA::Yes, VoteA::No, VoteA::Abstain];
+                c.voters_acting = vec![0, 1, 2, 3];
+                c.executors = vec![3];
+                c.closers = vec![3];
+                c.blocks = 3;
+                c.edits = vec![GroupEdit { remove: vec![], add: vec![(0, 10)] }, GroupEdit { remove: vec![], add: vec![(3, 4)] }];
+                c.editors = vec![4];
+                c.max_edits = 1;
                 c.exec_iff = true;
                 out.push((c, None));
             }
@@ -206,6 +236,33 @@ pub fn configs(prop: &str, thorough: bool) -> Vec<(Cfg, Option<usize>)> {
                 c.edits_after_proposal = true;
                 out.push((c, None));
             }
+            // (a'') a configured deposit must not change what Execute relays
+            for cw20 in [false, true] {
+                if !thorough && cw20 {
+                    continue;
+                }
+                let mut c = Cfg::base(&format!("C05/flex/count2/Anyone/height/tags+{}-deposit", if cw20 { "cw20" } else { "native" }), true);
+                c.props = p.clone();
+                c.voters = vec![(0, 1), (1, 1)];
+                c.th = Th::Count(2);
+                c.deposit = if cw20 { Dep::Cw20 { amount: 1, refund: true } } else { Dep::Native { amount: 1, refund: true } };
+                c.max_props = 2;
+                c.kinds = vec![PK::Tag1, PK::Tag2, PK::ExecPrev];
+                c.votes = vec![VoteA::Yes, VoteA::No];
+                c.proposers = vec![0];
+                c.voters_acting = vec![1];
+                c.executors = vec![0, 3];
+                c.closers = vec![3];
+                c.blocks = 3;
+                c.purse = 2;
+                if cw20 {
+                    c.allow_amts = vec![1];
+                    c.max_allow = 2;
+                } else {
+                    c.funds = vec![vec![(0, 1)]];
+                }
+                out.push((c, None));
+            }
             // (b) re-entrancy and nesting, funding
             for flex in [false, true] {
                 for (ki, kinds) in [vec![PK::Reenter, PK::Tag1], vec![PK::Tag1, PK::ExecPrev], vec![PK::Tag1, PK::ClosePrev], vec![PK::Pay, PK::Tag1]].into_iter().enumerate() {
@@ -213,7 +270,8 @@ pub fn configs(prop: &str, thorough: bool) -> Vec<(Cfg, Option<usize>)> {
                         if !flex && ex != Exec::Anyone {
                             continue;
                         }
-                        if !thorough && !(flex == (ki % 2 == 0) && ex == Exec::Anyone) {
+                        let _ = ki;
+                        if !thorough && ex != Exec::Anyone {
                             continue;
                         }
                         let mut c = Cfg::base(&format!("C05/{}/{:?}/{:?}/reentrancy", if flex { "flex" } else { "fixed" }, kinds, ex), flex);
@@ -246,6 +304,7 @@ pub fn configs(prop: &str, thorough: bool) -> Vec<(Cfg, Option<usize>)> {
                 ("A0,B1,C2", vec![(0, 0), (1, 1), (2, 2)]),
                 ("A1,A2,B1(repeated)", vec![(0, 1), (0, 2), (1, 1)]),
                 ("A0,B1,B2(repeated)", vec![(0, 0), (1, 1), (1, 2)]),
+                ("Amax-1,B1,C1(sum exceeds u64)", vec![(0, u64::MAX - 1), (1, 1), (2, 1)]),
                 ("A1,B1,A2(repeated-apart)", vec![(0, 1), (1, 1), (0, 2)]),
                 ("A3,B1,C1,A1(repeated-apart)", vec![(0, 3), (1, 1), (2, 1), (0, 1)]),
                 ("A1(single)", vec![(0, 1)]),
@@ -299,8 +358,9 @@ pub fn configs(prop: &str, thorough: bool) -> Vec<(Cfg, Option<usize>)> {
                     c.voters = wv.clone();
                     c.th = th;
                     c.max_props = np;
-                    c.proposers = vec![0, 3];
-                    c.votes = vec![VoteA::Yes, VoteA::No];
+                    c.proposers = if wv.len() == 2 { vec![0, 1, 3] } else { vec![0, 3] };
+                    c.votes = if np == 1 { vec![VoteA::Yes, VoteA::No, VoteA::Abstain] } else { vec![VoteA::Yes, VoteA::No] };
+                    c.exec_iff = true;
                     c.voters_acting = vec![0, 1, 2, 3];
                     c.executors = vec![3];
                     c.closers = vec![3];
@@ -333,7 +393,9 @@ pub fn configs(prop: &str, thorough: bool) -> Vec<(Cfg, Option<usize>)> {
                             if !thorough && k % 4 != 1 && !(gn == "A1,C3" && *tn == "pct51" && refund) {
                                 continue;
                             }
-                            let mut c = Cfg::base(&format!("C15/{gn}/{tn}/{}/refund={refund}", if cw20 { "cw20" } else { "native" }), true);
+                            let per = if k % 2 == 0 { Per::T(2 * DT) } else { Per::H(2) };
+                            let mut c = Cfg::base(&format!("C15/{gn}/{tn}/{}/refund={refund}/{}", if cw20 { "cw20" } else { "native" }, if per == Per::H(2) { "height" } else { "time" }), true);
+                            c.period = per;
                             c.props = p.clone();
                             c.voters = wv.clone();
                             c.th = *th;
@@ -359,6 +421,30 @@ pub fn configs(prop: &str, thorough: bool) -> Vec<(Cfg, Option<usize>)> {
                         }
                     }
                 }
+            }
+            // a quorum proposal that stays Open for the whole period and is voted down only by the
+            // at-expiry rule (No outweighs Yes among the votes cast): Close must still return the deposit
+            for per in [Per::H(2), Per::T(2 * DT)] {
+                if !thorough && per != Per::H(2) {
+                    continue;
+                }
+                let mut c = Cfg::base(&format!("C15/A1,B3,C4/q51-50/native/refund=true/{}", if per == Per::H(2) { "height" } else { "time" }), true);
+                c.props = p.clone();
+                c.voters = vec![(0, 1), (1, 3), (2, 4)];
+                c.th = Th::Quorum { t: pct(510_000_000), q: pct(500_000_000) };
+                c.period = per;
+                c.deposit = Dep::Native { amount: 2, refund: true };
+                c.max_props = 1;
+                c.latest = vec![LatestA::Unset, LatestA::AlreadyExpired];
+                c.proposers = vec![0];
+                c.votes = vec![VoteA::Yes, VoteA::No, VoteA::Abstain];
+                c.voters_acting = vec![1, 2];
+                c.executors = vec![3];
+                c.closers = vec![0, 3];
+                c.blocks = 3;
+                c.purse = 4;
+                c.funds = vec![vec![(0, 2)]];
+                out.push((c, None));
             }
             // a rejection tipped by an Abstain (shrinking base): A proposes, B(3) votes No, C(2) abstains
             for (tn, th) in [("pct51", Th::Pct(pct(510_000_000))), ("q51-50", Th::Quorum { t: pct(510_000_000), q: pct(500_000_000) })] {
